@@ -283,3 +283,86 @@ Corollary restore_outgoing_fresh mi mb li cs c p :
 Proof.
   intros H NO x. rewrite (restore_outgoing _ _ _ _ _ H NO x). cbn. tauto.
 Qed.
+
+Lemma sremove_In s k x : In x (sremove s k) <-> In x s /\ x <> k.
+Proof.
+  induction s as [|y s IH]; cbn; [tauto|].
+  destruct (N.eqb_spec k y); cbn; rewrite IH; intuition congruence.
+Qed.
+
+Lemma make_learner_voters mi mb li c p id c' p' :
+  make_learner mi mb li c p id = (c', p') ->
+  forall x, (In x (c_voters c') -> In x (c_voters c)) /\ (x <> id -> In x (c_voters c) -> In x (c_voters c')).
+Proof.
+  unfold make_learner, init_progress, cc_remove. intros H x.
+  destruct (alookup p id) as [pr|]; [|inversion H; subst; cbn; tauto].
+  destruct (pr_is_learner pr); [inversion H; subst; tauto|].
+  destruct (negb (has_progress p id)).
+  - destruct (smem (c_outgoing c) id); inversion H; subst; cbn; tauto.
+  - destruct (smem (c_outgoing c) id) eqn:SM; cbn in H; rewrite ?SM in H; cbn in H;
+      inversion H; subst; cbn; rewrite sremove_In; tauto.
+Qed.
+
+Lemma add_learner_simple t li id c p :
+  changer_simple t li [mkCCS CCAddLearnerNode id] = inl (c, p) ->
+  forall x, (In x (c_voters c) -> In x (c_voters (t_config t))) /\
+            (x <> id -> In x (c_voters (t_config t)) -> In x (c_voters c)).
+Proof.
+  unfold changer_simple. intros H x.
+  destruct (check_and_return (cfg_clone (t_config t)) (t_progress t)) as [[c0 p0]|] eqn:E0; [|discriminate].
+  apply check_and_return_ok in E0. destruct E0 as (-> & -> & I0).
+  destruct (joint _) eqn:J; [discriminate|].
+  destruct (cc_apply _ _ _ _ _ _) as [[c2 p2]|] eqn:EA; [|discriminate].
+  destruct (1 <? symdiff _ _) eqn:SD; [discriminate|].
+  apply check_and_return_ok in H. destruct H as (-> & -> & I2).
+  cbn [cc_apply ccs_node ccs_type] in EA.
+  destruct (N.eqb id 0).
+  - destruct (N.eqb _ 0); [discriminate|]. inversion EA; subst. cbn. tauto.
+  - destruct (make_learner _ _ _ _ _ _) as [c1 p1] eqn:ML.
+    destruct (N.eqb _ 0); [discriminate|]. inversion EA; subst.
+    apply make_learner_voters with (x := x) in ML. cbn in ML. exact ML.
+Qed.
+
+Lemma chain_add_learners li : forall ids t t',
+  chain_simple t li (map (mkCCS CCAddLearnerNode) ids) = inl t' ->
+  forall x, (In x (c_voters (t_config t')) -> In x (c_voters (t_config t))) /\
+            (~ In x ids -> In x (c_voters (t_config t)) -> In x (c_voters (t_config t'))).
+Proof.
+  induction ids as [|id ids IH]; intros t t' H x; cbn [map chain_simple] in H.
+  - inversion H; subst. tauto.
+  - destruct (changer_simple t li [mkCCS CCAddLearnerNode id]) as [[c p]|e] eqn:E; [|discriminate].
+    apply IH with (x := x) in H. cbn [t_with_config_progress t_config] in H.
+    pose proof (add_learner_simple _ _ _ _ _ E x) as A. cbn [In]. intuition auto.
+Qed.
+
+Lemma chain_simple_app li : forall a b t t',
+  chain_simple t li (a ++ b) = inl t' -> exists tm, chain_simple t li a = inl tm /\ chain_simple tm li b = inl t'.
+Proof.
+  induction a as [|cc a IH]; intros b t t' H; cbn [app chain_simple] in *.
+  - exists t. auto.
+  - destruct (changer_simple t li [cc]) as [[c p]|e]; [|discriminate]. apply IH. exact H.
+Qed.
+
+(* Restore of a non-joint ConfState into a fresh tracker: the voter set of the result is the
+   ConfState's Voters (id 0 skipped), provided no voter is also listed as a learner *)
+Theorem restore_voters_fresh mi mb li cs c p :
+  cc_restore (make_tracker mi mb) li cs = inl (c, p) -> cs_voters_outgoing cs = [] ->
+  (forall x, In x (cs_voters cs) -> ~ In x (cs_learners cs) /\ ~ In x (cs_learners_next cs)) ->
+  forall x, In x (c_voters c) <-> In x (cs_voters cs) /\ x <> 0.
+Proof.
+  unfold cc_restore, to_cc_single. intros H NO D x. rewrite NO in H. cbn [map app] in H.
+  destruct (chain_simple _ li _) as [t'|e] eqn:EC; [|discriminate]. inversion H; subst. clear H.
+  apply chain_simple_app in EC. destruct EC as (t1 & E1 & EC).
+  apply chain_simple_app in EC. destruct EC as (t2 & E2 & E3).
+  pose proof (chain_add_voters _ _ _ _ E1 x) as V1. cbn in V1.
+  pose proof (chain_add_learners _ _ _ _ E2 x) as V2.
+  pose proof (chain_add_learners _ _ _ _ E3 x) as V3.
+  specialize (D x). tauto.
+Qed.
+
+Example restore_voters_fresh_somewhere :
+  match cc_restore (make_tracker 4 0) 10 (mkConfState [1;2;3] [4] [] [] false) with
+  | inl (c, p) => list_eqb N.eqb (c_voters c) [1;2;3] && list_eqb N.eqb (c_learners c) [4]
+  | inr _ => false
+  end = true.
+Proof. vm_compute. reflexivity. Qed.
